@@ -14,40 +14,76 @@ MANIFEST = {
     "text": "Lean 4 theorems, for every mask element type (bool/int/float), every numpy-broadcastable mask shape, every tensor "
             "size and every NaN-free float32 value (explicit type: +0, -0, finite, +inf, -inf): masked k-space is bit-identical "
             "to the input on the support and exactly +0 off it, masking is idempotent and non-interfering (unsampled entries "
-            "cannot influence the result); the same for apply_padding, for the engines' masked forward operator (output +0 off "
-            "the support whatever F/expand are) and masked backward operator / ConjGrad A* / MRILogLikelihood (output independent "
-            "of unsampled entries of the data and of the prediction), and for the mask-function path (mask = "
-            "mask_func(kspace.shape[1:], seed)). Tied to the code by translating predicate and both branches of every "
-            "torch.where plus the composition order of the operators into Lean (bridge lemmas) and by a bit-level differential "
-            "correspondence through recording Fourier operators.",
+            "cannot influence the result), with explicit corollaries for the documented layouts (one (h,w) pattern for every coil, "
+            "slice / time frame and complex component; per-frame patterns for dynamic data); the same for apply_padding, for the "
+            "engines' masked forward operator (output +0 off the support whatever F/expand are) and masked backward operator / "
+            "ConjGrad A* / MRILogLikelihood (output independent of unsampled entries of the data and of the prediction); for the "
+            "mask-function path of apply_mask and of the pipeline (CreateSamplingMask with its shape / seed / padding options "
+            "followed by ApplyMask: the mask is apply_padding(mask_func(shape, seed(filename))), the masked k-space is +0 off it "
+            "and +0 inside the zero-padding); for the hard data-consistency step of the SSL / JSSL engines "
+            "(kspace + apply_mask(prediction, ~mask), padding, target projection: measured value on the support whatever the "
+            "prediction is, prediction off it, +0 off the target mask / in the padding); for the ACS k-space of the sensitivity / "
+            "body-coil estimation; and for call histories on persistent objects (a memoising operator is transparent iff its key "
+            "determines the result; the k-space-only key leaks). Tied to the code by translating predicate and both branches of "
+            "every torch.where, the composition order of the operators, the plans of ApplyMaskModule / ApplyZeroPadding / "
+            "CreateSamplingMask, a structural-facts table of the ten deciding functions (returns, returns of an input, state "
+            "written, in-place updates of arguments, branches, loops), and the tables of all 51 masking sites under direct/nn "
+            "(with per-function counts) and all 12 sites elsewhere in direct/ (no product of unmasked data with a mask) into Lean "
+            "(bridge lemmas), and by a bit-level differential correspondence on the real functions, modules, engines (toy "
+            "MRIModelEngine, SSL and JSSL engines through their real _do_iteration) and scripted call histories.",
     "note": "Trusted: Lean kernel (+propext, Classical.choice, Quot.sound), the AST recipes of harness/translate/recipes/c03.py, "
-            "torch.where / broadcasting semantics as encoded by whereWith / bIdxR (validated by correspondence on bit patterns), "
-            "the FVal encoding of float32 bit patterns. Fourier transform, expand and reduce operators are arbitrary functions in "
-            "the theorems. Float masks are covered for integer-valued entries, -0.0 and inf; NaN entries are outside the "
-            "property's quantifier.",
-    "technique": "Lean 4 proof (list induction over index arithmetic, broadcasting as index map) + AST translation bridge "
-                 "(where-sites, stage order) + bit-level differential correspondence + non-interference oracle on the real code",
+            "torch.where / broadcasting semantics as encoded by whereWith / bIdxR (validated by correspondence on bit patterns; reads "
+            "of well-formed operands provably never use a default value), the FVal encoding of float32 bit patterns, IEEE x + (+0) "
+            "as encoded by FVal.add. Fourier transform, expand and reduce operators, the network and the mask function are arbitrary "
+            "functions in the theorems. Partial: float masks in the Lean correspondence have integer-valued entries, +-0, +-inf "
+            "(0.5-type weights, float16/bfloat16/float64 k-space, int8..int64 / float16..float64 masks, non-contiguous and "
+            "zero-size tensors are covered by the oracle on the real code only); sums of two non-zero finite values in hardDC are "
+            "exact only for small integers (the theorems use x + 0 only); NaN entries are outside the property's quantifier; "
+            "apply_padding tests `== 1` by design. Finding of phase 3 (repaired in /repo, witness acs_mul_pinned_violates): the ACS "
+            "k-space was masked by multiplication, inf outside the ACS mask gave NaN sensitivity maps.",
+    "technique": "Lean 4 proof (list induction over index arithmetic, broadcasting as index map, special-value float type) + AST "
+                 "translation bridges (where-sites, stage order, plans, structural facts, site tables with decided predicates) + "
+                 "bit-level differential correspondence (incl. scripted call histories and real SSL/JSSL iterations) + property "
+                 "oracle on the real code (dtype / layout / size ladders, aliasing, histories on persistent objects, grad / no_grad / "
+                 "inference modes, train / eval, 13 unrolled blocks, engines)",
 }
 TRUSTED = [
     "Lean 4.33 kernel; axioms ⊆ {propext, Classical.choice, Quot.sound}",
-    "harness/translate/recipes/c03.py (torch.where predicate/branches, mask_func call, stage order of the masked operators)",
+    "harness/translate/recipes/c03.py (torch.where predicate/branches and zero-constant dtype, mask_func call, stage order of the masked "
+    "operators, plans of ApplyMaskModule / ApplyZeroPadding / CreateSamplingMask, structural facts of ten functions, site scans of direct/nn "
+    "and of the rest of direct/, state-write scan)",
     "torch.where and numpy-style broadcasting as encoded by whereWith/srcAt/bIdxR/bShapeR — validated by correspondence; the index "
     "arithmetic itself (bShapeR, bIdxR, unravelR/ravelR) is additionally compared with np.broadcast_shapes / np.broadcast_to / "
-    "np.unravel_index on an exhaustive small scope and its inverse laws are proved (Lemmas/C03)",
-    "encoding of float32 bit patterns as FVal tags (harness) and its decoder (Driver/C03.lean)",
-    "forward/backward Fourier operators, expand_operator, reduce_operator are abstract (arbitrary) in the theorems",
+    "np.unravel_index on an exhaustive small scope, its inverse laws and the in-range law of broadcast reads are proved (Lemmas/C03)",
+    "encoding of float32 bit patterns as FVal tags (harness) and its decoder (Driver/C03.lean); IEEE `x + 0`, `s * x` on the special-value "
+    "type (FVal.add, FVal.mulInt) — validated by the harddc / loglik / acsmul correspondence",
+    "forward/backward Fourier operators, expand_operator, reduce_operator, the network output and the mask function are abstract "
+    "(arbitrary) in the theorems",
+    "the toy engines (MRIModelEngine, SSLMRIModelEngine, JSSLMRIModelEngine subclasses overriding only forward_function) and recording "
+    "operators used to observe the real _forward_operator / _backward_operator / _do_iteration",
 ]
 ASSUMPTIONS = [
-    "k-space values are NaN-free (the property's quantifier); finite probe values are integer-valued float32 (incl. ±3.4028235e38)",
-    "float masks: integer-valued entries, ±0.0, ±inf (NaN mask entries are outside the quantifier)",
+    "k-space values are NaN-free (the property's quantifier); finite probe values of the Lean correspondence are integer-valued float32 "
+    "(incl. ±3.4028235e38); arbitrary finite values, subnormals, float16 / bfloat16 / float64 are probed by the oracle on the real code",
+    "float masks in the Lean correspondence: integer-valued entries, ±0.0, ±inf; entries such as 0.5 and all other mask dtypes by the oracle "
+    "(NaN mask entries are outside the quantifier); a mask entry is 'set' iff it is non-zero",
     "MRILogLikelihood correspondence observes the `error` tensor at the input of the backward operator; on-support arithmetic "
-    "is exact small-integer arithmetic",
+    "is exact small-integer arithmetic; the hard-DC correspondence observes the k-space handed to the loss / backward operator, the "
+    "measured k-space is +0 off its mask so every sum has a zero operand",
+    "ESPIRiT / network internals are not part of this property; the ACS sites are observed at the input of their backward operator",
 ]
 RULE = ("k-space tensors (coil,h,w,2), (coil,s,h,w,2), (b,coil,h,w,2), (b,coil,s,h,w,2) filled with distinct integers and planted "
-        "-0.0/±inf/±3.4e38 at sampled and unsampled positions; bool/uint8/int64/float32 masks of every broadcastable shape "
-        "(all-zero, all-one, random, rank-deficient, expanding); ApplyMaskModule on sample dicts with stale target content (same / other shape / non-tensor), histories of 1-3 applications with new masks, custom key names, unrelated keys; plus a malformed stream (non-broadcastable masks, no complex axis). "
+        "-0.0/±inf/±3.4e38 at sampled and unsampled positions, incl. a size ladder (8, 9, 16, 17, 20, 33 on one axis) and empty axes; "
+        "bool/uint8/int64/float32 masks of every broadcastable shape (all-zero, all-one, random, non-binary values, rank-deficient, "
+        "expanding); ApplyMaskModule / ApplyMask wrapper on sample dicts with stale target content, histories of 1-3 applications, custom "
+        "key names; scripted call histories on persistent objects (same objects re-used, written in place / through numpy / .data, "
+        "re-allocated); engine operators in train and eval mode; real SSL / JSSL iterations (train / eval, image or k-space output, padding, "
+        "coil ladder); CreateSamplingMask options (shape None / () / full / with None / too long, use_seed, return_acs, padding) + ApplyMask; "
+        "ACS sites; plus a malformed stream (non-broadcastable masks, no complex axis, missing keys). Oracle: the same on arbitrary values, "
+        "float16/bfloat16/float64 k-space, 10 mask dtypes, non-contiguous layouts, aliasing, grad / no_grad / inference modes, 13 unrolled "
+        "blocks (train/eval, coil ladder, weighted masks, object re-use), VSharp engines with padding, SSL splitters. "
         "non-trivial = at least one sampled and one unsampled position and ≥ 4 k-space entries, or a malformed input that must "
-        "be rejected; distinct = distinct protocol line / oracle case key")
+        "be rejected, or a history of ≥ 3 calls; distinct = distinct protocol line / oracle case key")
 PENDING_FINDINGS: list[str] = []   # `acs-mul-mask:inf-outside-acs-gives-nan` (phase 3) was repaired in /repo; Props/C03.acs_mul_pinned_violates
 EXTRA_LEAN_MODULES = ["DirectVerif.Lemmas.C03"]   # helper lemmas: hygiene-checked and axiom-audited too
 
@@ -1203,6 +1239,16 @@ def check_nn_block(name: str, seed: int, train: bool = False, coils: int | None 
                 out.append((f"nn-{name}-depends-on-call-history",
                             f"{name}: call #{step + 1} on a reused instance differs from a fresh instance with the same parameters "
                             f"(state such as a cached mask survives between calls)"))
+            if step == 0:
+                # "set" means non-zero: weights / counts as set entries (0.5, 2, -1, 3) must give the result of the 0-1 mask
+                gw = torch.Generator().manual_seed(seed)
+                mw = (m != 0).to(torch.float32) * torch.tensor([0.5, 2.0, -1.0, 3.0])[torch.randint(0, 4, m.shape, generator=gw)]
+                torch.manual_seed(seed + step)
+                ow = _call_block(name, net, (kshape, mw, S, full, y, junk, sel))
+                if _bits(ow).shape != _bits(o1).shape or (_bits(ow) != _bits(o1)).any():
+                    out.append((f"nn-{name}-mask-weights-matter",
+                                f"{name}: a float mask whose set entries are 0.5 / 2 / -1 / 3 gives another result than the 0-1 mask with "
+                                f"the same support (a site does not test `mask == 0`)"))
             if mode == "block-data":
                 torch.manual_seed(seed + step)
                 o2 = _call_block(name, net, inputs, data_junk=True)
